@@ -21,6 +21,8 @@ RULE = ('(a) bounded-exhaustive token soups (default context: 46-token alphabet;
         'first len(strict(D)) top-level nodes equal strict(D); (d) D + opener + D2 + opener2 + D3 '
         'with nothing closed: every chars node of strict(D2) precedes the strict error position '
         'and must be in the tolerant tree; (e) thorough: atheris campaigns running oracle (a). '
+        '(f) generically, in four contexts: the top-level nodes (but the last two) of the longest '
+        'strictly parsable token prefix open the tolerant result unchanged. '
         'Non-trivial = input that does not '
         'parse strictly (recovery taken) or whose tree has >= 3 node kinds; distinct by string.')
 ASSUMPTIONS = [
